@@ -176,3 +176,73 @@ theorem bcsr_diag_row {A : Bcsr α} (h : A.WF) (hb : A.bh = A.bw) (hpos : 0 < A.
 
 end BcsrDiag
 end FeatModel.LA.MatAlg
+
+namespace FeatModel.LA.MatAlg
+open FeatModel.LA Finset
+
+/-- adjacent-increasing on `[s, s+n)` is strictly monotone there -/
+theorem strictMono_of_adjacent (c : Nat → Nat) (s n : Nat) (h : ∀ k, s ≤ k → k + 1 < s + n → c k < c (k + 1)) :
+    ∀ p q, s ≤ p → p < q → q < s + n → c p < c q := by
+  intro p q hp hpq hq
+  induction q with
+  | zero => omega
+  | succ q ih =>
+    rcases Nat.lt_or_ge p q with h1 | h1
+    · exact Nat.lt_trans (ih h1 (by omega)) (h q (by omega) hq)
+    · have : p = q := by omega
+      subst this; exact h p hp hq
+
+/-- BCSR: the decidable layout validity of C02 (`Bcsr.sortedRows`) gives `SortedCols` for every block row -/
+theorem sortedCols_of_sortedRows_bcsr {α : Type} [Zero α] (A : Bcsr α) (h1 : A.wf = true) (h2 : A.sortedRows = true) (i : Nat) :
+    SortedCols (bcsrRow A i) := by
+  have hw := (Bcsr.wf_iff A).mp h1
+  unfold bcsrRow
+  by_cases hi : i < A.rows
+  · apply sortedCols_range'
+    apply strictMono_of_adjacent
+    intro k hk1 hk2
+    simp only [Bcsr.sortedRows, List.all_eq_true, List.mem_range, List.mem_range'_1, decide_eq_true_eq] at h2
+    have hm := hw.mono i hi
+    exact h2 i hi k ⟨hk1, by omega⟩
+  · have : A.rowPtr.getD (i + 1) 0 - A.rowPtr.getD i 0 = 0 := by
+      have hsz := hw.size
+      have h0 : A.rowPtr.getD (i + 1) 0 = 0 := by simp [Array.getD]; omega
+      omega
+    rw [this]
+    simp [SortedCols, rowCols]
+
+section AxpyDense
+variable {α : Type} [CommRing α]
+
+/-- the matrix `T` with a new value array -/
+def withVal (T : Csr α) (l : List α) : Csr α := { T with val := l.toArray }
+
+/-- the dense meaning is linear in the value array: if the new values are `t_p + a·x_p` at every storage position and
+    `X` shares the layout of `T`, then `⟦T'⟧ = ⟦T⟧ + a·⟦X⟧` entry by entry -/
+theorem entry_withVal_axpy {T X : Csr α} (h : T.WF) (hp : X.rowPtr = T.rowPtr) (hc : X.colInd = T.colInd) (hcols : X.cols = T.cols)
+    (l : List α) (b a : α)
+    (hl : ∀ p, p < T.val.size → l.getD p 0 = b * T.val.getD p 0 + a * X.val.getD p 0) {i : Nat} (hi : i < T.rows) (j : Nat) :
+    (withVal T l).entry i j = b * T.entry i j + a * X.entry i j := by
+  have hb : X.rowBegin i = T.rowBegin i := by unfold Csr.rowBegin; rw [hp]
+  have he : X.rowEnd i = T.rowEnd i := by unfold Csr.rowEnd; rw [hp]
+  have e1 : (withVal T l).rowBegin i = T.rowBegin i := rfl
+  have e2 : (withVal T l).rowEnd i = T.rowEnd i := rfl
+  rw [Csr.entry_eq_sum_Ico, Csr.entry_eq_sum_Ico, Csr.entry_eq_sum_Ico, e1, e2, hb, he, Finset.mul_sum,
+    Finset.mul_sum, ← Finset.sum_add_distrib]
+  apply Finset.sum_congr rfl
+  intro k hk
+  rw [Finset.mem_Ico] at hk
+  have hle := Csr.rowEnd_le h hi
+  have hk2 : k < T.val.size := by rw [← h.colSize]; omega
+  show (if (withVal T l).colInd.getD k (withVal T l).cols = j then (withVal T l).val.getD k 0 else 0) = _
+  have hv : (withVal T l).val.getD k 0 = l.getD k 0 := by
+    by_cases hkl : k < l.length
+    · simp [withVal, Array.getD, List.getD, hkl]
+    · simp [withVal, Array.getD, List.getD, hkl]
+  have hci : (withVal T l).colInd = T.colInd := rfl
+  have hco : (withVal T l).cols = T.cols := rfl
+  rw [hv, hci, hco, hc, hcols, hl k hk2]
+  split <;> ring
+
+end AxpyDense
+end FeatModel.LA.MatAlg
